@@ -96,9 +96,9 @@ func genSkeleton(x *Exec, maxR, maxE int, dates bool) absFile {
 			case 0:
 				rec.Items = append(rec.Items, absItem{Name: fmt.Sprintf("food%d", k), NumText: fmt.Sprintf("%d.5", k)})
 			case 1:
-				rec.Items = append(rec.Items, absItem{IsNote: true, Name: "mood", NoteText: fmt.Sprintf("ok %d", k)})
+				rec.Items = append(rec.Items, absItem{IsNote: true, Name: "mood", NoteText: fmt.Sprintf("ok %d%% (fine), really", k)})
 			default:
-				rec.Items = append(rec.Items, absItem{IsNote: true, NoteText: fmt.Sprintf("free text %d", k)})
+				rec.Items = append(rec.Items, absItem{IsNote: true, NoteText: fmt.Sprintf("free text %d / 2 + 2 = 4!", k)})
 			}
 		}
 		f = append(f, rec)
